@@ -1289,6 +1289,9 @@ class TransactionBuilder:
         selected_utxos = []
         selected_amount = Value()
         for i in self.inputs:
+            if i in selected_utxos:
+                # The same UTxO registered twice must be spent (and counted) only once
+                continue
             selected_utxos.append(i)
             selected_amount += i.output.amount
 
